@@ -194,7 +194,7 @@ def _params_plain(cfg, form=None):
         if cfg[1] == 1 and len(cfg) > 2 and cfg[2] == "default":
             return {"forecaster": None}
         if len(cfg) > 2 and cfg[2] == "noint":
-            return {"forecaster": PolynomialTrendForecaster(degree=_form(cfg[1], form), with_intercept=_form(False, form))}
+            return {"forecaster": PolynomialTrendForecaster(degree=_form(cfg[1], form), with_intercept=_form(False, "np" if form else None))}   # (0 is refused by this environment's sklearn 1.7 parameter validation: not sktime's doing)
         return {"forecaster": PolynomialTrendForecaster(degree=_form(cfg[1], form))}
     if k == "bc":
         b = cfg[1] if len(cfg) > 1 else None
